@@ -300,6 +300,11 @@ def none_paths_pure(view, m):
             for d in m.defs.get(0, []):
                 if d[0] == "stmt" and d[3]["rv"]["k"] == "aggregate" and d[3]["rv"].get("variant") == "None":
                     bb = d[1]
+                    if _after_failed_lookup(view, m, bb):
+                        # `match map.get_index_mut2(k) { Some(..) => .., None => None }` after the guard: the slot lookup of a
+                        # guarded cursor cannot fail (R-CURSOR c2 / R-BOUNDS); this is not the exhausted-iterator path
+                        out.append((True, "None arm of the guarded slot lookup"))
+                        continue
                     writers = self_writes(view, m)
                     # blocks on some path entry -> bb
                     dirty = [w for w in writers if w in m.cfg.dom[bb] or reaches(m.cfg, w, bb)]
@@ -313,6 +318,25 @@ def none_paths_pure(view, m):
         else:
             out.append((True, "non-None alternative"))
     return out
+
+
+def _after_failed_lookup(view, m, bb):
+    """bb is dominated by the absent edge of a switch on the Option result of a map slot lookup"""
+    from .core import edge_presence
+    cfg = m.cfg
+    for sb in sorted(cfg.reach):
+        t = m.term(sb)
+        if t["k"] != "switch" or not cfg.dominates(sb, bb) or sb == bb:
+            continue
+        d = strip(view.vp.operand(m, t["discr"]))
+        if d[0] != "discr":
+            continue
+        if not any(x[0] == "call" and x[1].split("::")[-1] in ("get_index_mut2", "get_index_mut", "get_index", "map") for x in walk(d)):
+            continue
+        for nb in cfg.succ[sb]:
+            if edge_presence(d, t, nb) == "absent" and (nb == bb or cfg.dominates(nb, bb)):
+                return True
+    return False
 
 
 def reaches(cfg, a, b):
